@@ -21,21 +21,26 @@ MANIFEST = dict(
     technique='Coq proof (induction over operation sequences) about a hand model of the generated Python classes whose template facts and '
               'pick_width are re-extracted from /repo on every run; extracted-model vs. real generated classes correspondence on random '
               'operation sequences',
-    text='Theorems in coq/theories/Properties/C18.v about Gen/PyObj.v instantiated with Generated/Gen_PyObj.v: for every type database and every '
-         'sequence of constructor / property-setter / update_from_builtin operations the object honours its contract (scalars in range, array '
-         'dtype and length legal, a union holds exactly one option, recursively); a raising setter leaves the object unchanged; the integer, '
-         'float and array-length checks are exact (accept every legal value, reject every illegal one); pick_width picks the least standard '
-         'width.  The element-range part of the contract is refuted for the shipped code by a witness (known finding F-PY-ARRELEM) and proved for '
-         'the conformant variant; ndarrays of another dtype wrap around on the conversion path unless the template pre-checks the source '
-         '(known finding F-PY-ARRWRAP: refuted by witness without the pre-check, proved range-exact with it, Python-int lists never '
-         'wrap) (conformant = the shape of the fix; the scanner tells which of the two the template in /repo is, the check probes which of '
-         'the two the generated classes are, and both must agree) and for all types without arrays of non-standard-width integers.  Tie: pick_width is translated and the '
-         'structure of base.j2 (which checks each setter and each assign_array branch contains, comparison operators, union bookkeeping) is '
-         'scanned from /repo on every run, the proofs are re-checked against them; the extracted model and the real generated classes (real '
-         'nnvg, NumPy) are run on the same operation sequences and compared on accept/raise and on the complete object state after every '
-         'operation, on to_builtin/update_from_builtin round trips (state and serialization), and `_MODEL_` is compared with the source model '
-         'for every type.',
-    note='PARTIAL: `_MODEL_` equality (pickle/gzip/base85 are library behaviour) is covered by correspondence only.  The builtin round trip '
+    text='Theorems in coq/theories/Properties/C18.v about Gen/PyObj.v instantiated with Generated/Gen_PyObj.v: the default constructor succeeds for '
+         'every type of every well-formed database (no totalised start state); for every sequence of constructor / property-setter / '
+         'update_from_builtin operations the object is an instance of its class and honours the full contract (scalars in range, array '
+         'dtype/length legal, integer elements within the DSDL range, a union holds exactly one option, recursively); for sequences that ALSO '
+         'write through getter-returned ndarrays, slice views, aliases of caller arrays (`o.a[j] = v`, `o.a += z`) and nested setters, the '
+         'storage-level contract survives and the DSDL element range of non-standard-width integer arrays is refuted by witness (the setter '
+         'aliases exactly on the same-dtype fast path, proved); a raising setter leaves the object unchanged; scalar/length checks are exact '
+         '(fact read-back of the scanner); a foreign-dtype ndarray is stored unchanged and within the field range (F-PY-ARRWRAP fixed); '
+         'to_builtin -> update_from_builtin reproduces every object (all types), f_round is idempotent so this composes with histories; '
+         '`restore (filter_pickle m) = m` under explicit library laws; pick_width picks the least standard width.  Statements about earlier '
+         'code states are in coq/theories/History/C18_history.v.  Tie: pick_width is translated, base.j2 is scanned (15 structural facts), '
+         'filter_pickle / _restore_constant_ / the `_MODEL_` lines and the reflection functions of nunavut_support.j2 are shape-pinned, all '
+         're-checked at every run; the extracted model and the real generated classes (real nnvg, NumPy) are compared on the same operation '
+         'sequences (incl. in-place, aliasing, nested writes) on accept/raise and the complete object state after every operation, on builtin '
+         'round trips (state and bytes), serialized size within the bit length set, `_MODEL_`/get_class/get_model for every type and object, '
+         'and the assumed NumPy laws are swept at the dtype edges.',
+    note='PARTIAL: `_MODEL_` equality rests on library laws stated as hypotheses (pickle/gzip/base85 round trips) plus correspondence; the '
+         'serialized-size bound and byte equality of the round trip are checked by correspondence only (the type model of PyObj.v has no '
+         'padding/extent information; state equality is what the round-trip theorem claims).  Read-only arrays (np.frombuffer of bytes), NumPy '
+         'scalars inside lists, element writes through `o.arr_of_composites[k].x` and direct `_x` writes are outside the op alphabet.  The builtin round trip '
          'is a theorem for all types (nested composites, arrays of composites, float16/32 arrays) under decidable premises each shown '
          'necessary by a counterexample; one of them -- float16/32 array elements are representable in their storage type -- is true of '
          'everything NumPy stores but is not proved for reachable model states (needs idempotence of the rounding model) and is validated by '
@@ -139,6 +144,14 @@ def sx_x(x) -> str:
 
 
 def sx_op(op) -> str:
+    if 'setin' in op:
+        return '(setin (%s) %d %s)' % (' '.join(map(str, op['setin'])), op['i'], sx_x(op['x']))
+    if 'mut' in op:
+        return '(mut (%s) %d %d %s)' % (' '.join(map(str, op['mut'])), op['i'], op['j'], sx_x(op['x']))
+    if 'iadd' in op:
+        return '(iadd (%s) %d %s)' % (' '.join(map(str, op['iadd'])), op['i'], op['z'])
+    if 'alias' in op:
+        return '(alias %d %s %d %s)' % (op['alias'], sx_x(op['a']), op['j'], sx_x(op['x']))
     if 'set' in op:
         return '(set %d %s)' % (op['set'], sx_x(op['x']))
     if 'ufb' in op:
@@ -411,8 +424,12 @@ class Gen:
                     bad = [v for v in (float(hi) + 1.0, float(lo) - 1.0, float(hi) + 300.0, -3.0) if not lo <= v <= hi and abs(v) < 60000]
                     if bad:
                         vals[r.randrange(n)] = r.choice(bad)
-                        tags.add('arrwrap')
-                        exp = 'reject'
+                # what the source ndarray really holds (float16/32 round the literals)
+                fmt = {16: '<e', 32: '<f', 64: '<d'}[w]
+                vals = [struct.unpack(fmt, struct.pack(fmt, v))[0] for v in vals]
+                if any(not lo <= v <= hi for v in vals):
+                    tags.add('arrwrap')
+                    exp = 'reject'
                 return {'nd': src, 'e': [lit(vf(v)) for v in vals]}, exp, tags
             pool = [0.0, 1.5, -2.25, 0.5, 1024.0, 65504.0] + ([1e6, 1e-30] if w > 16 else []) + ([1e39, 1e300] if w > 32 else [])
             vals = [r.choice(pool) * r.choice([1, -1]) for _ in range(n)]
@@ -663,7 +680,119 @@ class Gen:
         return {'d': items}
 
     # ---- one case
+    def targets(self, tid: int, depth: int = 2):
+        """(path, type id) of the instance itself and of everything reachable through composite-typed fields"""
+        out = [([], tid)]
+        if depth:
+            for i, f in enumerate(self.m.fields[tid]):
+                if f['type']['k'] == 'ref':
+                    out += [([i] + p, t) for p, t in self.targets(self.m.index[f['type']['id']], depth - 1)]
+        return out
+
+    def elem_value(self, et):
+        """a Python scalar written into an existing array element: (X, tag)"""
+        r = self.rng
+        k = et['k']
+        if k in ('uint', 'int'):
+            lo, hi = int_range(et)
+            slo, shi = storage_range(et)
+            c = r.randrange(6)
+            if c < 3:
+                return lit(vi(r.choice([lo, hi, r.randint(lo, hi)]))), 'inplace_in_range'
+            if c == 3 and (lo, hi) != (slo, shi):
+                return lit(vi(r.choice([v for v in (hi + 1, lo - 1, shi, slo) if slo <= v <= shi and not lo <= v <= hi]))), 'inplace_storage_only'
+            if c == 4:
+                return lit(vi(r.choice([shi + 1, slo - 1, 2 ** 70]))), 'inplace_overflow'
+            return lit(r.choice([vf(1.5), True, None, vs('x')])), 'inplace_other_type'
+        if k == 'float':
+            return lit(r.choice([vf(1.5), vf(0.1), vf(1e6), vf(-65519.9), vf(float('nan')), vf(float('inf')), vi(3), True, None, vs('x')])), 'inplace_float'
+        if k == 'bool':
+            return lit(r.choice([True, False, vi(2), vi(0), vf(0.0), None])), 'inplace_bool'
+        tid = self.m.index[et['id']]
+        if r.random() < 0.7:
+            return self.new(tid, valid=True, depth=2)[0], 'inplace_instance'
+        return lit(r.choice([vi(1), None, vs('ab')])), 'inplace_foreign'
+
+    def inplace_op(self, tid: int):
+        """an operation that does not go through the documented setters of the top-level object"""
+        r = self.rng
+        path, t = r.choice(self.targets(tid))
+        fs = self.m.fields[t]
+        arrs = [i for i, f in enumerate(fs) if f['type']['k'] in ('farr', 'varr')]
+        c = r.randrange(10)
+        if (c < 2 and path) or not arrs:
+            if not fs:
+                return None
+            i = r.randrange(len(fs))
+            x, _, tags = self.field(fs[i]['type'], valid_only=r.random() < 0.4)
+            return {'setin': path, 'i': i, 'x': x}, ['setin'] + sorted(tags)
+        i = r.choice(arrs)
+        ft = fs[i]['type']
+        et = ft['elem']
+        cap = ft['n'] if ft['k'] == 'farr' else ft['cap']
+        j = r.choice([0, 0, 1, r.randint(0, min(cap, 8)), min(cap, 300)])
+        if c < 6:
+            x, tag = self.elem_value(et)
+            return {'mut': path, 'i': i, 'j': j, 'x': x, 'view': r.random() < 0.4}, ['inplace', tag]
+        if c < 8 and et['k'] in ('uint', 'int'):
+            slo, shi = storage_range(et)
+            z = r.choice([1, -1, 3, 100, shi, shi + 1, slo - 1, 0])
+            return {'iadd': path, 'i': i, 'z': str(z)}, ['inplace', 'iadd']
+        if et['k'] in ('uint', 'int', 'float', 'bool'):
+            i = r.choice([k for k in arrs])        # aliasing is only offered on the top-level object
+            fs0 = self.m.fields[tid]
+            arrs0 = [k for k, f in enumerate(fs0) if f['type']['k'] in ('farr', 'varr') and f['type']['elem']['k'] != 'ref']
+            if not arrs0:
+                return None
+            i = r.choice(arrs0)
+            ft = fs0[i]['type']
+            n = ft['n'] if ft['k'] == 'farr' else r.randint(1, max(1, min(ft['cap'], 5)))
+            a, _, tags = self.nd_any(ft, min(n, 50), True, set())
+            if r.random() < 0.6:                  # same dtype: the fast path binds the caller's array
+                a = {'nd': dt_name(ft['elem']), 'e': [self.default_lit(ft['elem']) for _ in range(min(n, 50))]}
+                tags = {'alias_same_dtype'}
+            x, tag = self.elem_value(ft['elem'])
+            return {'alias': i, 'a': a, 'j': r.choice([0, 0, 1, n]), 'x': x}, ['inplace', 'alias', tag] + sorted(tags)
+        x, tag = self.elem_value(et)
+        return {'mut': path, 'i': i, 'j': j, 'x': x, 'view': False}, ['inplace', tag]
+
+    @staticmethod
+    def default_lit(et):
+        return lit(False) if et['k'] == 'bool' else lit(vf(0.0)) if et['k'] == 'float' else lit(vi(0))
+
+    @staticmethod
+    def has_bytes(x) -> bool:
+        """does the expression contain a bytes / str literal (np.frombuffer of bytes is read-only: no in-place write afterwards)"""
+        if isinstance(x, dict):
+            return 'y' in x or 's' in x or any(Gen.has_bytes(v) for v in x.values())
+        if isinstance(x, list):
+            return any(Gen.has_bytes(v) for v in x)
+        return False
+
     def case(self, tid: int, n_ops: int):
+        case, exps = self.case0(tid, n_ops)
+        r = self.rng
+        if r.random() < 0.3:                      # a history with writes that bypass the setters
+            ops, ex2 = [], []
+            for o, e in zip(case['ops'], exps):
+                if self.has_bytes(o):
+                    continue                      # keep every array writeable
+                ops.append(o)
+                ex2.append(e)
+                for _ in range(r.choice([0, 1, 1, 2])):
+                    g = self.inplace_op(tid)
+                    if g and not self.has_bytes(g[0]):
+                        ops.append(g[0])
+                        ex2.append({'expect': None, 'tags': g[1], 'kind': 'inplace' if 'inplace' in g[1] else 'setin'})
+            if not ops:
+                g = self.inplace_op(tid)
+                if g and not self.has_bytes(g[0]):
+                    ops, ex2 = [g[0]], [{'expect': None, 'tags': g[1], 'kind': 'inplace' if 'inplace' in g[1] else 'setin'}]
+            if ops:
+                return {'tid': tid, 'ops': ops, 'via_json': False}, ex2
+        return case, exps
+
+    def case0(self, tid: int, n_ops: int):
         r = self.rng
         fs = self.m.fields[tid]
         ops, exps = [], []
@@ -785,6 +914,65 @@ def contract_problems(m: MDB, st, tid_expected: typing.Optional[int] = None) -> 
 # one namespace: generate, run model and implementation, compare
 # ---------------------------------------------------------------------------------------------------------------------
 
+ALL_DT = ['u8', 'i8', 'u16', 'i16', 'u32', 'i32', 'u64', 'i64', 'f16', 'f32', 'f64', 'b']
+
+
+def dt_range(d: str):
+    w = int(d[1:])
+    return (0, 2 ** w - 1) if d[0] == 'u' else (-2 ** (w - 1), 2 ** (w - 1) - 1)
+
+
+def conv_sweep(rng: random.Random) -> typing.List[dict]:
+    """numpy.array(x, dt).flatten() at the edges of every dtype: the NumPy laws Gen/PyObjLaws.v names, one stratum per law"""
+    out: typing.List[dict] = []
+
+    def add(law, dt, x):
+        out.append({'conv': dt, 'x': x, 'law': law})
+
+    ints = [d for d in ALL_DT if d[0] in 'ui']
+    for dt in ints:
+        lo, hi = dt_range(dt)
+        add('law_pyint_id', dt, lit({'l': [vi(lo), vi(hi), vi(0), vi(rng.randint(lo, hi))]}))
+        add('law_pyint_id', dt, lit(vi(hi)))                                    # scalar -> one element
+        add('law_pyint_id', dt, lit({'l': [{'l': [vi(lo), vi(hi)]}, {'l': [vi(0), vi(1)]}]}))   # rectangular nesting flattens
+        for bad in (hi + 1, lo - 1, hi + 2 ** 64, -2 ** 70):
+            add('law_pyint_overflow', dt, lit({'l': [vi(0), vi(bad)]}))
+        add('law_pylist_float_trunc', dt, lit({'l': [vf(1.9), vf(0.0), vf(float(min(hi, 100)) + 0.5 if hi > 100 else 0.5)]}))
+        add('law_pylist_float_overflow', dt, lit({'l': [vf(float(hi) + 1.0)]}))
+        add('law_pylist_bool', dt, lit({'l': [True, False]}))
+        add('law_pylist_none_raises', dt, lit({'l': [None]}))
+        add('law_ragged_raises', dt, lit({'l': [{'l': [vi(0)]}, {'l': [vi(0), vi(1)]}]}))
+        for src in ints:
+            if src == dt:
+                continue
+            slo, shi = dt_range(src)
+            vals = [slo, shi, 0, max(slo, min(shi, hi + 1)), max(slo, min(shi, lo - 1)), rng.randint(slo, shi)]
+            add('law_foreign_wrap', dt, {'nd': src, 'e': [lit(vi(v)) for v in vals]})
+        for src in ('f32', 'f64'):
+            add('law_foreign_float_trunc_wrap', dt, {'nd': src, 'e': [lit(vf(v)) for v in (0.0, 2.75, -2.75, float(min(hi, 1000)), 300.0, -1.0)]})
+        add('law_foreign_bool', dt, {'nd': 'b', 'e': [lit(True), lit(False)]})
+    for dt in ('f16', 'f32', 'f64'):
+        for v in (0.1, 1 / 3, 65504.0, 65519.9, 65520.0, 1e6, 3.4028234663852886e38, 3.4028235677973366e38, 1e39, 5e-324, 6e-8, 2.98e-8, 1e-46,
+                  float('inf'), -float('inf'), float('nan'), rng.uniform(-70000, 70000), rng.uniform(-1, 1) * 2.0 ** rng.randint(-160, 130)):
+            add('law_float_round', dt, lit({'l': [vf(v), vf(-v)]}))
+        add('law_float_from_int', dt, lit({'l': [vi(3), vi(-7), vi(2 ** 53 + 1), vi(2 ** 70), True, None]}))
+        add('law_pyint_overflow_float', dt, lit({'l': [vi(10 ** 400)]}))
+        for src in ALL_DT:
+            if src == dt or src == 'b':
+                continue
+            if src[0] == 'f':
+                add('law_float_round_foreign', dt, {'nd': src, 'e': [lit(vf(v)) for v in (0.1, 65504.0, 70000.0 if src != 'f16' else 1024.0, -0.5)]})
+            else:
+                slo, shi = dt_range(src)
+                add('law_float_from_foreign_int', dt, {'nd': src, 'e': [lit(vi(v)) for v in (slo, shi, 0, 1)]})
+    for src in ints + ['f64']:
+        e = [lit(vi(v)) for v in (0, 1, 2)] if src != 'f64' else [lit(vf(v)) for v in (0.0, 0.5, float('nan'))]
+        add('law_bool_truthiness', 'b', {'nd': src, 'e': e})
+    add('law_bool_truthiness', 'b', lit({'l': [True, vi(0), vi(5), vf(0.0), vf(2.5), None]}))
+    add('law_object_identity', 'o', lit({'l': [vi(1), None, vs('ab'), vf(1.5)]}))
+    return out
+
+
 def probe_cases(m: MDB) -> typing.List[typing.Tuple[dict, typing.List[dict]]]:
     """directed cases on the hand-written namespace c18p (witnesses of the known finding first)"""
     s = m.index['c18p.S.1.0']
@@ -869,9 +1057,10 @@ def run_namespace(label: str, spec: dict, seed: int, n_cases: int, repo: str, ex
                                      for o in case['ops']]))
     for c, _ in cases[::3]:
         c['via_json'] = True
+    convs = conv_sweep(rng) if label == 'probe' else []
     # --- implementation
     q = subprocess.run([core.PY, os.path.join(core.VERIF, 'tools', 'harness', 'c18_impl.py'), os.path.join(work, 'py', 'types.json')] + dirs,
-                       input=json.dumps({'order': m.order, 'cases': [c for c, _ in cases]}), env=tgt.env, cwd=os.path.join(work, 'py'),
+                       input=json.dumps({'order': m.order, 'cases': [c for c, _ in cases] + convs}), env=tgt.env, cwd=os.path.join(work, 'py'),
                        stdout=subprocess.PIPE, stderr=subprocess.PIPE, text=True, timeout=1500)
     try:
         impl_doc = json.loads(q.stdout)
@@ -890,6 +1079,8 @@ def run_namespace(label: str, spec: dict, seed: int, n_cases: int, repo: str, ex
         res['witness'] = bool(w.get('steps') and w['steps'][0][0] == 'ok' and 'i200' in w['steps'][0][1])
         w2 = impl[1]
         res['witness_wrap'] = bool(w2.get('steps') and w2['steps'][0][0] == 'ok')      # uint8[<=4] = np.array([256, 1], int64) accepted
+    res['_convs'] = (convs, impl[len(cases):])
+    impl = impl[:len(cases)]
     res['_pending'] = (m, cases, impl, impl_defaults)
     return res
 
@@ -897,10 +1088,12 @@ def run_namespace(label: str, spec: dict, seed: int, n_cases: int, repo: str, ex
 def finish_namespace(res: dict, exe: typing.Optional[str], quirk: bool, wrap_live: bool = False) -> None:
     """model run (needs the probed quirk) and all comparisons"""
     m, cases, impl, impl_defaults = res.pop('_pending')
+    convs, conv_impl = res.pop('_convs', ([], []))
     model_lines: typing.Optional[typing.List[str]] = None
     if exe:
         reqs = [m.line()] + ['default %d %d' % (1 if quirk else 0, t) for t in range(len(m.order))]
         reqs += ['run %d %d %s' % (1 if quirk else 0, c['tid'], ' '.join(sx_op(o) for o in c['ops'])) for c, _ in cases]
+        reqs += ['conv %s %s' % (c['conv'], sx_x(c['x'])) for c in convs]
         p = core.run([exe], input='\n'.join(reqs) + '\n', timeout=1500)
         lines = p.stdout.splitlines()
         if len(lines) != len(reqs) or not lines[0].startswith('ok 1'):
@@ -910,6 +1103,19 @@ def finish_namespace(res: dict, exe: typing.Optional[str], quirk: bool, wrap_liv
                 if lines[1 + t] != impl_defaults[t]:
                     res['mismatch'].append({'what': 'default object', 'type': m.order[t], 'model': lines[1 + t][:300], 'impl': impl_defaults[t][:300]})
             model_lines = lines[1 + len(m.order):]
+            conv_lines = model_lines[len(cases):]
+            model_lines = model_lines[:len(cases)]
+            res['laws'] = {}
+            for c, im, ml in zip(convs, conv_impl, conv_lines):
+                st = res['laws'].setdefault(c['law'], [0, 0])
+                st[0] += 1
+                got = im.get('conv', '?')
+                same = (got == ml) if (got.startswith('ok') and ml.startswith('ok')) else (got.startswith('ok') == ml.startswith('ok'))
+                if same:
+                    st[1] += 1
+                else:
+                    res['mismatch'].append({'what': 'NumPy law %s: numpy.array(x, %s)' % (c['law'], c['conv']), 'case': c, 'model': ml[:300],
+                                            'impl': got[:300], 'type': 'numpy'})
     stats: typing.Dict[str, int] = {}
 
     def bump(k, n=1):
@@ -922,6 +1128,7 @@ def finish_namespace(res: dict, exe: typing.Optional[str], quirk: bool, wrap_liv
             continue
         steps = im['steps']
         prev_state = impl_defaults[case['tid']]
+        tainted = False      # a write that bypassed the setters has happened
         mdl = None
         if model_lines is not None:
             parts = model_lines[ci].split(' | ')
@@ -939,6 +1146,7 @@ def finish_namespace(res: dict, exe: typing.Optional[str], quirk: bool, wrap_liv
             key = (case['tid'], ex['kind'], tuple(ex['tags']), outcome)
             distinct.add(key)
             trig = 'arrelem' in ex['tags'] or 'arrelem_float' in ex['tags']
+            tainted = tainted or 'inplace' in ex['tags']
             # model vs implementation
             agrees = True
             if mdl is not None:
@@ -960,6 +1168,10 @@ def finish_namespace(res: dict, exe: typing.Optional[str], quirk: bool, wrap_liv
                 for cls, detail in contract_problems(m, parse_state(state), case['tid']):
                     if cls != 'elem_foreign':
                         problems.append((cls, detail))
+            if tainted and any(c == 'elem_range' for c, _ in problems):
+                # outside the property: the element was written through the ndarray, not through a setter (C18_inplace_elem_range_refuted)
+                bump('inplace_elem_out_of_dsdl_range')
+                problems = [pr for pr in problems if pr[0] != 'elem_range']
             for cls, detail in problems:
                 # an instance of the known finding: its trigger holds, the witness reproduces on this tree, and the quirk-faithful
                 # model (when it could be built) predicts exactly this outcome and state
@@ -980,7 +1192,20 @@ def finish_namespace(res: dict, exe: typing.Optional[str], quirk: bool, wrap_liv
         foreign = any(c == 'elem_foreign' for c, _ in contract_problems(m, parse_state(final), case['tid'])) if not final.startswith('?') else True
         if mdl is not None and mdl['rt'].split(' ')[0] != rt.split(' ')[0] and not foreign:
             res['mismatch'].append({'what': 'builtin round trip', 'case': case, 'model': mdl['rt'][:300], 'impl': rt[:300], 'type': m.order[case['tid']]})
-        if not foreign and (rt != 'same' or im.get('ser', 'same') != 'same'):
+        strict_bad = (not final.startswith('?')) and any(c == 'elem_range' for c, _ in contract_problems(m, parse_state(final), case['tid']))
+        if im.get('model_attr') is not True:
+            res['oracle'].append({'class': 'embedded_model', 'detail': 'get_model(obj) / get_class(get_model(obj)): %r' % (im.get('model_attr'),),
+                                  'case': case, 'type': m.order[case['tid']]})
+        if 'ser_len' in im:
+            meta = m.comps[case['tid']]['meta']
+            lo_b, hi_b = (meta['min_bits'] + 7) // 8, (meta['max_bits'] + 7) // 8
+            bump('ser_size_checked')
+            if not lo_b <= im['ser_len'] <= hi_b:
+                res['oracle'].append({'class': 'serialized_size', 'detail': '%d bytes, bit length set allows %d..%d' % (im['ser_len'], lo_b, hi_b),
+                                      'case': case, 'impl': [rt[:100], final[:600]], 'type': m.order[case['tid']]})
+        if tainted and strict_bad:
+            bump('rt_skipped_inplace')
+        elif not foreign and (rt != 'same' or im.get('ser', 'same') != 'same'):
             res['oracle'].append({'class': 'builtin_round_trip', 'detail': '%s / serialization %s' % (rt[:200], im.get('ser')), 'case': case,
                                   'impl': [rt[:300], final[:600]], 'type': m.order[case['tid']]})
     for tid_, ans in res['models']:
@@ -1069,12 +1294,22 @@ def main(chk: core.Check, replay: typing.Optional[str] = None) -> int:
     quick = chk.tier == 'quick'
     adopt_own_findings(chk)
     repo = core.REPO
-    res = core.coq_check('C18', ['pyobj', 'pin_c18support'], timeout=400)
+    res = core.coq_check('C18', ['pyobj', 'pin_c18support', 'pin_c18model'], timeout=400)
     chk.proof_coverage(res, [
         'scanner of lang/py/templates/base.j2 and translator of pick_width (tools/translators/gen_c18.py); shape pin c18support '
         '(tools/translators/shape_pin.py) on to_builtin/_to_builtin_impl/update_from_builtin/get_class/get_model/get_attribute/set_attribute',
         'hand model Gen/PyObj.v of the generated classes, of NumPy array conversion and of update_from_builtin/to_builtin; validated by the '
         'correspondence run below, not verified',
+        'ASSUMED NumPy 2 / CPython laws (Gen/PyObjLaws.v np_laws; each swept at the dtype edges in every run, coverage.distribution numpy_law_*): '
+        'law_pyint_id (np.array of in-range Python ints is the identity, rectangular nesting flattens, a scalar gives one element), '
+        'law_pyint_overflow (a Python int outside an integer dtype raises OverflowError; 10**400 into a float dtype too), '
+        'law_pylist_float_trunc/_overflow (Python floats in a list are truncated, then range-checked), law_foreign_wrap (elements of an ndarray '
+        'of another integer dtype are C-cast: wrap modulo 2^w), law_foreign_float_trunc_wrap, law_float_round (round-to-nearest-even to '
+        'binary16/32, overflow to inf, None -> NaN), law_float_from_int, law_bool_truthiness, law_object_identity, law_ragged_raises, '
+        'a[j] = v converts like an element of np.array([v], dtype) and stores in place, a += z wraps; the same-dtype fast path binds the '
+        'caller\'s array (no copy)',
+        'library laws of `_MODEL_` (Gen/PyModelAttr.v hypotheses): pickle.loads(pickle.dumps(m, 4)) == m, gzip.decompress(gzip.compress(b)) == b, '
+        'b85decode(b85encode(b)) == b, the base85 alphabet has no white space; adjacent string literals concatenate',
         'extraction: Require Extraction ExtrOcamlBasic only; OCaml 4.13.1; ocaml/c18_driver.ml',
         'tools/harness/c18_impl.py, tools/harness/codec/{astdump,dsdlgen,target_py,target_py_driver}.py, pydsdl 1.25, NumPy from build/pydeps',
     ])
@@ -1155,6 +1390,9 @@ def main(chk: core.Check, replay: typing.Optional[str] = None) -> int:
             oracle.append(dict(e, namespace=r['label'], dsdl=r['dsdl']))
         errors += ['%s: %s' % (r['label'], e) for e in r['errors']]
         known_instances += r['known_instances']
+        for law, (n_, ok_) in (r.get('laws') or {}).items():
+            stats['numpy_' + law] = stats.get('numpy_' + law, 0) + n_
+            stats['numpy_' + law + '_agree'] = stats.get('numpy_' + law + '_agree', 0) + ok_
         model_ops += r['model_ops']
         n_cases += r.get('n_cases', 0)
         n_types += r.get('n_types', 0)
